@@ -50,6 +50,9 @@ def plan(tier, seed):
                                                  "PositiveConstraint", "L0_5")]
             shards.append(dict(name="%s/%s" % (solver, df), solver=solver, datafit=df, penalties=pens, reps=REPS[tier]))
     shards.append(dict(name="estimators", solver="EST", datafit=None, penalties=[], reps=REPS[tier] * 3))
+    for sv, df, pen in K.TOLSWEEP_FAMILIES:
+        shards.append(dict(name="tolsweep/%s/%s/%s" % (sv, df, pen), solver=sv, datafit=df, penalties=[pen],
+                           reps={"quick": 2, "thorough": 12}[tier], tolsweep={"quick": 12, "thorough": 24}[tier]))
     return shards
 
 
@@ -110,11 +113,15 @@ def run_shard(spec, emit):
             cs = gen_spec(rng, solver, df, pen, seed, [solver, str(df), pen, rep])
             if cs is None:
                 continue
-            try:
-                run_case(emit, cid, cs, rng, rep == 0)
-            except Exception:
-                import traceback
-                emit(dict(id=cid, cell="harness", status="inconclusive", obs=dict(tb=traceback.format_exc()[-1500:])))
+            todo = [(cid, cs)]
+            if spec.get("tolsweep"):
+                todo = [("tolsweep/%s/t%d" % (cid, i), c2) for i, c2 in enumerate(K.tol_sweep(rng, cs, spec["tolsweep"]))]
+            for cid_, cs_ in todo:
+                try:
+                    run_case(emit, cid_, cs_, rng, rep == 0 and cid_ == todo[0][0])
+                except Exception:
+                    import traceback
+                    emit(dict(id=cid_, cell="harness", status="inconclusive", obs=dict(tb=traceback.format_exc()[-1500:])))
 
 
 def _v(case, mech, detail, **kw):
